@@ -112,7 +112,7 @@ def view(case):
 
 def campaigns(tier: str) -> List[Campaign]:
     return [Campaign("iterations", c12_case(), check, quick=400, thorough=24000, quick_shards=8,
-                     required_classes={"steps=0": 0.05, "steps=1": 0.05, "steps=2": 0.1, "steps=3": 0.1, "trimmed": 0.3,
+                     required_classes={"unrounded_fractional_times": 0.05, "steps=0": 0.05, "steps=1": 0.05, "steps=2": 0.1, "steps=3": 0.1, "trimmed": 0.3,
                                        "include_last": 0.15, "exclude_last": 0.15, "activity_launched_in_last_step": 0.15,
                                        "work_after_last_step_start": 0.3},
                      sample_view=view)]
